@@ -474,7 +474,64 @@ def rule_classification_total(ctx: Ctx, rep: Report) -> None:
     rep.floor("C06.classification_total", 5)
 
 
+def rule_network_names_normalised(ctx: Ctx, rep: Report) -> None:
+    """C06.network_names_normalised: a network argument is the caller's spelling of
+    a name ("Mainnet", " testnet "), which `network_from_name` reads; the key
+    and address layers compare what it answers -- a prefix, a version set, a
+    Network -- never the caller's text itself. A `network` parameter is not an
+    operand of ==, !=, in or not in as it came (against anything but None): a
+    WIF written under "Testnet" would be refused under "Testnet"."""
+    rule = "C06.network_names_normalised"
+    n = 0
+    for q, fi in sorted(ctx.prog.functions.items()):
+        if not q.startswith(("btclib.to_prv_key.", "btclib.to_pub_key.", "btclib.b32.", "btclib.b58.", "btclib.script.script_pub_key.")):
+            continue
+        if "network" not in fi.params():
+            continue
+        n += 1
+        for c in own_nodes(fi.node):
+            if not (isinstance(c, ast.Compare) and len(c.ops) == 1 and isinstance(c.ops[0], (ast.Eq, ast.NotEq, ast.In, ast.NotIn))):
+                continue
+            sides = [c.left, c.comparators[0]]
+            raw = [x for x in sides if isinstance(x, ast.Name) and x.id == "network"]
+            other = [x for x in sides if not (isinstance(x, ast.Name) and x.id == "network")]
+            if raw and other and not (isinstance(other[0], ast.Constant) and other[0].value is None):
+                from rules.sigcommon import _rebound_before
+                if _rebound_before(fi, "network", c):
+                    continue
+                rep.ob(rule, f"{q}:{norm(c)[:40]}", False, fi.where(c), f"`{norm(c)}` compares the caller's spelling of the network: a valid, non-canonical name is refused (or matched) as text")
+    rep.ob(rule, "scanned", n >= 10, "btclib:1", f"{n} functions taking a network")
+    rep.floor(rule, 1)
+
+
+def rule_resolved_network_answered(ctx: Ctx, rep: Report) -> None:
+    """C06.resolved_network_answered: an extended key carries its network in its
+    version bytes, and `_pub_keyinfo_from_xpub` is what reads it. Where
+    `_pub_keyinfo_from_pub_key` delegates to it, what it answers is answered --
+    the call sits in the return -- and is not taken apart with the network
+    dropped: a tpub held as an object would be read as mainnet, and its p2pkh
+    address begin with 1."""
+    rule = "C06.resolved_network_answered"
+    fi = ctx.func("btclib.to_pub_key._pub_keyinfo_from_pub_key")
+    calls = [c for c in own_nodes(fi.node) if isinstance(c, ast.Call) and call_name(c) == "_pub_keyinfo_from_xpub"]
+    if not calls:
+        rep.unknown(rule, "_pub_keyinfo_from_pub_key", fi.where(), "no delegation to _pub_keyinfo_from_xpub")
+        return
+    for c in calls:
+        p_ = parent(c)
+        while p_ is not None and not isinstance(p_, ast.stmt):
+            p_ = parent(p_)
+        direct = isinstance(p_, ast.Return)
+        dropped = isinstance(p_, ast.Assign) and isinstance(p_.targets[0], ast.Tuple) and any(isinstance(t, ast.Name) and t.id == "_" for t in p_.targets[0].elts)
+        rep.ob(rule, f"_pub_keyinfo_from_pub_key:L{c.lineno - fi.node.lineno}", direct and not dropped, fi.where(c), "the resolved (octets, network) is answered as it is" if direct else
+               f"`{norm(p_)[:70]}` takes the answer apart" + (" and drops the network the version bytes name" if dropped else ""))
+    rep.floor(rule, 1)
+
+
 RULES = [
+    ("C06.network_names_normalised", rule_network_names_normalised),
+    ("C06.resolved_network_answered", rule_resolved_network_answered),
+
     ("C06.classification_total", rule_classification_total),
 
     ("C06.base64_validated", rule_base64_validated),
